@@ -51,3 +51,9 @@ chk("C20", "other",
     "Bounded shapes; real-arithmetic floats (float32 rounding and NaN/Inf inputs outside the model, so an index that only overflows through rounding is not seen); float-to-int range events reported separately; OpenMP regions with sequential semantics here (races in C07/C11/C13); splat not driven; allocation never fails.",
     "symbolic execution of LLVM IR with a checked memory model (llsym) + z3; ASan/UBSan/valgrind replay of model events", "DESIGN.md 3/C20", "llsym")
 del NA["C20"]
+
+chk("C17", "other",
+    "Bounded symbolic execution of operation histories of the real columnfile class: cells are symbolic reals, filter masks / sort keys / removed values are symbolic and fork through z3, every sequence of <= 2 (thorough 3) operations plus a probing step over a 17-operation alphabet from dict-built, file-loaded and empty states; after every operation the representation invariant (one column per title, nrows entries, attribute/item/getcolumn views equal and the same storage), agreement with a row-wise shadow model (same selection/permutation in every column) and storage independence of copies are checked; violating sequences are replayed on the real class with float columns.",
+    "Depth bound 2-3 (+1); <= 3 columns x <= 3 rows; object-dtype arrays stand in for float arrays; removerows in tolerance mode; a columnfile without columns is outside the claim; HDF-loaded start states not executed (IO).",
+    "symbolic execution of the Python class (pysym values, solver-decided forks) with exhaustive bounded operation sequences + shadow-model comparison; concrete replay", "DESIGN.md 3/C17", "pysym")
+del NA["C17"]
